@@ -552,9 +552,39 @@ def run_dap(ctx, cases, tag="dap"):
     return res, rc, log
 
 
+NESTED_OFF = 2000    # generated programs have far fewer lines; kept small because the Coq side reads lines as nat
+
+
+def nested_keys(r):
+    """(line, begin column) of the before_stmt events whose span is NOT the outermost span that begins on that line.
+    `resolve_breakpoints` maps a line to a statement of the AST; the implicit `return` of a lambda written inside that statement
+    also fires before_stmt (with the span of the lambda's body, on the same line, deeper in the call stack) but is no statement of
+    the AST: a breakpoint on the line denotes the statement, not the lambda body.  Such events keep their place in the trace
+    (stepping sees them) under the line number line + NESTED_OFF, which no breakpoint names; stops are renamed the same way."""
+    by = {}
+    for e in r.get("events", []):
+        by.setdefault(e[0], set()).add((e[1], e[4], e[5]))
+    out = set()
+    for l, spans in by.items():
+        if len(spans) > 1:
+            outer = min(spans, key=lambda x: (x[0], -x[1], -x[2]))
+            out |= {(l, x[0]) for x in spans if x != outer}
+    return out
+
+
 def real_events(r):
-    """non-continued events as (line, depth) with depth = call_stack_count - 1 (the module frame counts as 1)."""
-    return [(e[0], e[3] - 1) for e in r.get("events", []) if not e[2]]
+    """non-continued events as (line, depth) with depth = call_stack_count - 1 (the module frame counts as 1); events of a
+    nested span (see nested_keys) are renamed to line + NESTED_OFF."""
+    nk = nested_keys(r)
+    return [((e[0] + NESTED_OFF) if (e[0], e[1]) in nk else e[0], e[3] - 1) for e in r.get("events", []) if not e[2]]
+
+
+def stop_line(s, nk):
+    """line of an adapter stop, renamed like the event it stopped at (top_frame columns are 1-based, event columns 0-based)."""
+    l = s.get("line")
+    if l is not None and s.get("col") is not None and (l, s["col"] - 1) in nk:
+        return l + NESTED_OFF
+    return l
 
 
 def dedupe_gc(events, gc_lines):
@@ -740,6 +770,13 @@ def check_programs(ctx, programs, want_model=True, extra_dbg=None):
                      dict(rep, stops=r.get("stops", [])[-5:]))
                 continue
             got = (r.get("tr"), norm_out(r.get("out")))
+            if got != b0 and (job.get("conds") or job.get("evals")) and unassigned_local_takes_global(p["src"], got, b0):
+                # the listed defect of Evaluator::eval_statements, reached by a generated program: evaluating a breakpoint condition
+                # inside a function gives a not-yet-assigned local the value of the module global of the same name
+                fail("debugger-eval-interference:unassigned-local-takes-global-value",
+                     "%s: under the debugger (%s) the plain run's failure `%s` does not happen: the condition evaluation inside the function "
+                     "(or an evaluate request) gave the unassigned local the module global's value" % (p["id"], name, b0[1][2]), dict(rep, instrumented=got, uninstrumented=b0))
+                continue
             if got != b0:
                 fail("outcome-differs:dap-" + name, "%s: under the debugger (%s, breakpoints %s) the program behaves differently: %s vs uninstrumented %s"
                      % (p["id"], name, bps, str(got)[:300], str(b0)[:300]), dict(rep, instrumented=got, uninstrumented=b0))
@@ -753,7 +790,8 @@ def check_programs(ctx, programs, want_model=True, extra_dbg=None):
             if resume_err:
                 fail("adapter-error:resume", "%s: continue/step failed: %s" % (p["id"], resume_err[0]), rep)
             st["stops"] += len(stops)
-            got_stops = [(s.get("line"), (len(s["frames"]) - 1) if "frames" in s else None) for s in stops]
+            nk0 = nested_keys(r0)
+            got_stops = [(stop_line(s, nk0), (len(s["frames"]) - 1) if "frames" in s else None) for s in stops]
             want = py_stops(bps, pol, evs0)
             if r.get("capped"):
                 want = want[:len(got_stops)]
@@ -861,6 +899,23 @@ def check_programs(ctx, programs, want_model=True, extra_dbg=None):
                     fail("stops-differ-from-decision-function:model", "%s (%s): adapter stops differ from the Coq decision function" % (p["id"], name),
                          {"src": p["src"], "bps": bps, "policy": pol, "impl_stops": got_stops[:60], "model_stops": ms[:60]})
     return failures, st
+
+
+def unassigned_local_takes_global(src, got, b0):
+    """Narrow recogniser of the known finding `debugger-eval-interference:unassigned-local-takes-global-value`: the uninstrumented
+    run fails with `Local variable `X` referenced before assignment`, X is also assigned at module level (column 0), and the
+    run under the debugger reproduces the uninstrumented transcript and then goes on past that failure."""
+    out0 = b0[1]
+    if not (isinstance(out0, (tuple, list)) and len(out0) >= 3 and out0[0] == "err"):
+        return False
+    m = re.match(r"Local variable `(\w+)` referenced before assignment", str(out0[2]))
+    if not m:
+        return False
+    x = m.group(1)
+    if not re.search(r"^(?:%s\s*(?:[-+*/%%|&^]|//|<<|>>)?=[^=]|for %s in |def %s\()" % (x, x, x), src, re.M):
+        return False
+    tr0, tr1 = list(b0[0] or []), list(got[0] or [])
+    return tr1[:len(tr0)] == tr0 and (len(tr1) > len(tr0) or got[1] != out0)
 
 
 def check_marker_stops(p, name, bps, stops, b0, rep, fail, st):
@@ -1119,7 +1174,7 @@ def script_sessions(ctx, prog, events, budget, depth_small, depth_big, stats=Non
     rng = ctx.rng
     stats = stats if stats is not None else {}
     src_lines = prog["src"].split("\n")
-    lines = sorted({l for l, _ in events if not src_lines[l - 1].startswith("def ")})
+    lines = sorted({l for l, _ in events if l < NESTED_OFF and not src_lines[l - 1].startswith("def ")})
     if not lines:
         return []
     subsets = [[l] for l in lines]
@@ -1214,7 +1269,8 @@ def check_scripts(ctx, progs, budget_per_prog, depth_small, depth_big, sessions_
             if tf:
                 fail(tf[0], "%s (breakpoints %s, commands %s): %s" % (p["id"], b, pol, tf[1]), dict(rep, stop=s_))
                 break
-        got = [(s_.get("line"), (len(s_["frames"]) - 1) if "frames" in s_ else None) for s_ in stops]
+        nk0 = nested_keys(r)
+        got = [(stop_line(s_, nk0), (len(s_["frames"]) - 1) if "frames" in s_ else None) for s_ in stops]
         want = py_stops(b, pol, evs)
         if r.get("capped"):
             want = want[:len(got)]
@@ -1624,7 +1680,7 @@ def check_shadow(ctx, progs):
             part = "transcript" if got[0] != b[0] else ("outcome" if got[1] != b[1] else "final module values")
             key = EVAL_KEY + name
             if p["hazard"] and b[1][0] == "err" and "referenced before assignment" in (b[1][2] or "") and ("`%s`" % p["haz_name"]) in (b[1][2] or "") \
-                    and got[0][:len(b[0])] == b[0] and (got[1] != b[1]):
+                    and got[0][:len(b[0])] == b[0] and (got[1] != b[1] or len(got[0]) > len(b[0])):
                 key = EVAL_KEY + p["hazard"]
             diff = ""
             if part == "final module values":
